@@ -254,6 +254,7 @@ class Waiter(object):
         self.peer_term_sent = False
         self.end_term = []
         self.acks = 0
+        self.late_refuse = []
         self.end.start()
 
     def queue(self, data):
@@ -288,19 +289,27 @@ class Waiter(object):
             self.msgs.append(msg)
             self.react(msg)
             moved = True
+        if self.late_refuse and self.peer_term_sent and self.end_term and not self.outbuf and not self.end_sock.tx.rxbuf:
+            for tid in self.late_refuse:
+                self.queue(tw.encode(dict(type='XFER_REFUSE', reason=2, transfer_id=tid)))
+            self.late_refuse = []
+            moved = True
         return moved
 
     def react(self, msg):
         params = self.params
         if msg['type'] == 'XFER_SEGMENT':
             tid = msg['transfer_id']
-            if params['refuse'] and msg['flags'] & tw.FLAG_START:
+            if params['refuse'] is True and msg['flags'] & tw.FLAG_START:
                 self.queue(tw.encode(dict(type='XFER_REFUSE', reason=2, transfer_id=tid)))
                 if params['peer_terminates'] == 'on-refuse' and not self.peer_term_sent:
                     self.peer_term_sent = True
                     self.queue(tw.encode(dict(type='SESS_TERM', flags=0, reason=0)))
             self.rx[tid] = self.rx.get(tid, 0) + len(msg['data'])
-            if not params['refuse']:
+            if params['refuse'] == 'late' and msg['flags'] & tw.FLAG_END:
+                # the final acknowledgement is withheld; the transfer is refused only after both SESS_TERM were exchanged
+                self.late_refuse.append(tid)
+            elif not params['refuse'] or params['refuse'] == 'late':
                 self.queue(tw.encode(dict(type='XFER_ACK', flags=msg['flags'] & (tw.FLAG_START | tw.FLAG_END), transfer_id=tid, length=self.rx[tid])))
                 self.acks += 1
             if params['peer_terminates'] == 'after-first-segment' and not self.peer_term_sent:
@@ -431,11 +440,11 @@ def run_case(case):
             params = dict(seed=case['seed'] * 100 + idx, role=rng.choice(['active', 'passive']), capacity=rng.choice([256, 1024, 4096]),
                           read=rng.choice([64, 300, 1024, 5000]), seg=rng.choice([100, 1000, 104857]), mru=rng.choice([500, 2 ** 20]),
                           lengths=[rng.choice([10, 3000, 20000, 60000]) for _ in range(rng.choice([1, 1, 2]))],
-                          refuse=rng.random() < 0.3, peer_terminates=rng.choice(['never', 'after-first-segment', 'on-refuse', 'after-first-segment']),
+                          refuse=rng.choice([False, False, False, True, 'late', 'late']), peer_terminates=rng.choice(['never', 'after-first-segment', 'on-refuse', 'after-first-segment']),
                           endpoint_terminates_at=rng.choice([None, 1, 2, 5, 20]), policy=rng.choice(['eager', 'fair', 'rr']))
             if params['peer_terminates'] == 'never' and params['endpoint_terminates_at'] is None:
                 params['endpoint_terminates_at'] = 3
-            if params['peer_terminates'] == 'on-refuse' and not params['refuse']:
+            if params['peer_terminates'] == 'on-refuse' and params['refuse'] is not True:
                 params['peer_terminates'] = 'after-first-segment'
             problems = run_waiter(params, obs)
             evaluations += 1
